@@ -1,5 +1,570 @@
-(* C10 - placeholder while the proofs are being written; replaced below. *)
-From Coq Require Import List.
-From PMS Require Import Model.Gateway.
-Theorem C10_placeholder : True. Proof. exact I. Qed.
-Print Assumptions C10_placeholder.
+(* C10 - OTA sessions are gated, restartable and terminate.  Statements only.
+
+   Machine: Model/Gateway.v (record ota: o_requested / o_unstarted / o_started / o_fw;
+   ota_get_fw, respond_fw_config, respond_fw, update_fw, handle_stream, handle_set,
+   handle_presentation, run_leaf, logic, step, run) over the GENERATED tables and registry;
+   byte level: Model/Hex.v, Model/Ota.v.  Reference automaton: Spec/OtaSession.v
+   (Idle | Requested k | Offered k | Fetching k; inputs Update k, CfgReq, BlkReq k' i,
+   Malformed; outputs CfgResp k, BlkResp k' i, none).  Oracles and clock are universally
+   quantified.  Definitions used in the statements (Proofs/OtaSessionProofs.v):
+
+     abs o n            which of the three stores holds node n (Requested / Offered / Fetching / Idle)
+     sess_inv o         the three stores have unique keys and at most one of them holds a node
+     ids_ok g           every node object is filed under its own id;  SInv g = sess_inv /\ ids_ok
+     fw_avail o         an image is stored for the key of every session that is not Idle
+     known g n          n is a key of gateway.sensors;  reboot_flag g n = sensors[n].reboot (false if unknown)
+     stream_input m     the automaton input of a stream message: sub-type 0 -> CfgReq when the payload is
+                        the hex of 5 words else Malformed; sub-type 2 -> BlkReq (t,v) i when it is the hex
+                        of 3 words else Malformed; other sub-types -> none
+     offer_reply fws m out   the message an automaton output becomes: CfgResp (t,v) -> sub-type 1 with
+                        payload fw_config_payload t v f, BlkResp (t,v) i -> sub-type 3 with payload
+                        fw_response_payload t v i f, f the image stored for (t,v); nothing when no image is
+                        stored for that key; a packing error (struct.error) propagates
+     update_key g ft fv bin  Some (t,v) iff the update call schedules: int(type)=t, int(version)=v, both in
+                        0..65535, and an image is given (non-empty) or already stored for (t,v)
+     line_of g o        the line the dispatcher runs on in step o (Recv in the asyncio flavour, Pump with a
+                        queued line in the threaded flavour);  schedules / presents / request_of: what step o
+                        means for node n (scheduling update call / accepted node presentation / stream request)
+     hex_request_ok s w      s is exactly 4*w hexadecimal digits (either case), nothing else *)
+From Coq Require Import List NArith ZArith Bool String.
+From PMS Require Import Base.PyStr Base.Exn Model.Codec Model.TableTypes Gen.Tables Model.Validate
+  Model.Oracles Model.Hex Model.Ota Model.Gateway Spec.SerialApi Spec.OtaSession
+  Proofs.HexProofs Proofs.GwLemmas Proofs.GwInv Proofs.OtaSessionProofs.
+Import ListNotations.
+Open Scope Z_scope.
+
+(* ------------------------------------------------------------------ 1. abstraction and invariant *)
+
+(* under the invariant, abs is the graph of "store X holds n": it does not depend on the order
+   in which the stores are inspected *)
+Theorem C10_abs_well_defined :
+  forall o n, sess_inv o ->
+    (forall k, abs o n = Requested k <-> zassoc n (o_requested o) = Some k) /\
+    (forall k, abs o n = Offered k <-> zassoc n (o_unstarted o) = Some k) /\
+    (forall k, abs o n = Fetching k <-> zassoc n (o_started o) = Some k) /\
+    (abs o n = Idle <-> zassoc n (o_requested o) = None /\ zassoc n (o_unstarted o) = None /\
+                        zassoc n (o_started o) = None).
+Proof. exact abs_well_defined. Qed.
+
+(* every state reachable from a fresh gateway by ANY history (any lines, pump iterations,
+   set_child_value / update_fw / metric calls, both task flavours, all five configurations)
+   satisfies the invariant, and an image is stored for the key of every scheduled session *)
+Theorem C10_reachable_invariant :
+  forall orc clock cf ops, cfg_ok cf ->
+    let g := run orc clock (gw_init cf) ops in
+    sess_inv (g_ota g) /\ ids_ok g /\ fw_avail (g_ota g) /\ g_cf g = cf.
+Proof. exact reachable_invariant. Qed.
+
+(* one step keeps the invariant and moves every session either by a non-update input of the
+   automaton or - only in an update call that names the node while it is known and has a key -
+   to Requested *)
+Theorem C10_step_invariant :
+  forall orc clock g o, cfg_ok (g_cf g) -> SInv g ->
+    SInv (step orc clock g o) /\ g_cf (step orc clock g o) = g_cf g /\
+    (forall n, known g n = true -> known (step orc clock g o) n = true) /\
+    fw_after g o (o_fw (g_ota (step orc clock g o))) /\
+    forall n, moved g o n (abs (g_ota g) n) (abs (g_ota (step orc clock g o)) n).
+Proof. exact step_weak. Qed.
+
+(* ------------------------------------------------------------------ 2. session_refines *)
+
+(* an accepted stream message (type 4) of sub-type 0 / 2 from a KNOWN node: the dispatcher does
+   exactly the automaton step for that node - same next state, reply = the automaton's output
+   (config response for the SCHEDULED key; block response for the REQUESTED key and block; no
+   reply, but the same state change, when no image is stored for that key) - every other
+   session, the firmware dictionary, the sensors, the job queue are untouched, and log / dirty
+   flag change exactly as by the callback alert of handle_stream *)
+Theorem C10_session_refines_request :
+  forall orc clock g l m i,
+    cfg_ok (g_cf g) -> sess_inv (g_ota g) ->
+    decode l = Some m -> gvalidate orc g m = true -> m_type m = 4 -> known g (m_node m) = true ->
+    stream_input m = Some i ->
+    let so := sstep (abs (g_ota g) (m_node m)) i in
+    exists g',
+      logic orc clock g l =
+        (do rm <- offer_reply (o_fw (g_ota g)) m (snd so); Ok (g', option_map encode rm)) /\
+      sess_inv (g_ota g') /\ o_fw (g_ota g') = o_fw (g_ota g) /\
+      abs (g_ota g') (m_node m) = fst so /\
+      (forall n, n <> m_node m -> abs (g_ota g') n = abs (g_ota g) n) /\
+      same_core g g' /\ g_log g' = g_log (alert g m) /\ g_dirty g' = g_dirty (alert g m).
+Proof. exact logic_stream_request. Qed.
+
+(* the same at the level of the two leaf handlers (before handle_stream's alert) *)
+Theorem C10_respond_fw_config_refines :
+  forall g m, tabfacts (tab g) (cf_ge20 (g_cf g)) -> sess_inv (g_ota g) -> wire_ok (m_payload m) = true ->
+    leaf_sim g m (cfg_input m) (respond_fw_config g m).
+Proof. exact respond_fw_config_sim. Qed.
+Theorem C10_respond_fw_refines :
+  forall g m, tabfacts (tab g) (cf_ge20 (g_cf g)) -> sess_inv (g_ota g) -> wire_ok (m_payload m) = true ->
+    leaf_sim g m (blk_input m) (respond_fw g m).
+Proof. exact respond_fw_sim. Qed.
+
+(* accepted stream message of any other sub-type from a known node: nothing at all *)
+Theorem C10_stream_other_subtype_noop :
+  forall orc clock g l m,
+    cfg_ok (g_cf g) -> decode l = Some m -> gvalidate orc g m = true -> m_type m = 4 ->
+    known g (m_node m) = true -> stream_input m = None ->
+    logic orc clock g l = Ok (g, None).
+Proof. exact logic_stream_other. Qed.
+
+(* every other accepted line (presentation of a child, set, req, internal): the OTA state, node
+   ids and reboot flags are untouched (frame = g_ota equal, configuration equal, known nodes stay
+   known, ids_ok kept, every reboot flag equal) *)
+Theorem C10_other_lines_frame :
+  forall orc clock g l m g' r,
+    cfg_ok (g_cf g) -> decode l = Some m -> gvalidate orc g m = true ->
+    m_type m <> 4 -> ~ (m_type m = 0 /\ m_child m = 255) ->
+    logic orc clock g l = Ok (g', r) -> frame g g'.
+Proof. exact logic_other_frame. Qed.
+
+(* every leaf handler of the registry other than the two firmware request handlers, and the
+   controller call set_child_value *)
+Theorem C10_leaf_handlers_frame :
+  forall orc clock h g m g' r, is_fw_leaf h = false -> run_leaf orc clock h g m = Ok (g', r) -> frame g g'.
+Proof. exact frame_run_leaf. Qed.
+Theorem C10_set_child_value_frame :
+  forall orc g s c vt v mt a g', set_child_value orc g s c vt v mt a = Ok g' -> frame g g'.
+Proof. exact frame_set_child_value. Qed.
+
+(* the update call: never raises; without a key (bad / out-of-range type or version, failed
+   load, no image) NOTHING changes (stores, firmware dictionary, sensors); with key (t,v) the
+   image (if given) is stored, exactly the KNOWN nodes named move to Requested (t,v) from
+   whatever state (restart) and get their reboot flag set, unknown ids are skipped *)
+Theorem C10_update_call :
+  forall g nids fwt fwv bin, sess_inv (g_ota g) -> ids_ok g ->
+  exists g', update_fw g nids fwt fwv bin = Ok g' /\
+    sess_inv (g_ota g') /\ ids_ok g' /\ g_cf g' = g_cf g /\
+    g_log g' = g_log g /\ g_jobs g' = g_jobs g /\ g_dirty g' = g_dirty g /\ g_metric g' = g_metric g /\
+    (forall n, known g' n = known g n) /\
+    match update_key g fwt fwv bin with
+    | None =>
+        same_sessions (g_ota g) (g_ota g') /\ o_fw (g_ota g') = o_fw (g_ota g) /\ g_sensors g' = g_sensors g
+    | Some (t, v) =>
+        0 <= t <= 65535 /\ 0 <= v <= 65535 /\ vt_int fwt = Some t /\ vt_int fwv = Some v /\
+        (exists f, fw_lookup t v (o_fw (g_ota g')) = Some f) /\
+        o_fw (g_ota g') = match bin with
+                          | Some b => fw_store t v (prepare_fw b) (o_fw (g_ota g))
+                          | None => o_fw (g_ota g)
+                          end /\
+        (forall n, abs (g_ota g') n =
+                   if zmem n nids && known g n then Requested (t, v) else abs (g_ota g) n) /\
+        (forall n, reboot_flag g' n = if zmem n nids && known g n then true else reboot_flag g n)
+    end.
+Proof. exact update_fw_spec. Qed.
+
+(* what having a key means *)
+Theorem C10_update_key_sound :
+  forall g ft fv bin t v, update_key g ft fv bin = Some (t, v) ->
+    vt_int ft = Some t /\ vt_int fv = Some v /\ 0 <= t <= 65535 /\ 0 <= v <= 65535 /\
+    ((exists b0 br, bin = Some (b0 :: br)) \/
+     (bin = None /\ exists f, fw_lookup t v (o_fw (g_ota g)) = Some f)).
+Proof. exact update_key_sound. Qed.
+
+(* the whole machine, one step, exactly: in a state satisfying the C01 invariant (so that the
+   dispatcher cannot raise) the session of every node after ANY step is the automaton's *)
+Theorem C10_session_refines_step :
+  forall orc clock g o n, cfg_ok (g_cf g) -> Inv orc g -> SInv g ->
+    abs (g_ota (step orc clock g o)) n =
+      match schedules g o n with
+      | Some k => Requested k
+      | None => match request_of orc g o n with
+                | Some i => fst (sstep (abs (g_ota g) n) i)
+                | None => abs (g_ota g) n
+                end
+      end.
+Proof. exact session_step_exact. Qed.
+
+(* ------------------------------------------------------------------ 3. the property's words *)
+
+(* gated (history): a session that is not Idle was scheduled, with its key, by an earlier update
+   call that named the node while it was known and had a key (C10_update_key_sound: integers in
+   range, firmware available) *)
+Theorem C10_gated_history :
+  forall orc clock cf ops n k, cfg_ok cf ->
+    key_of (abs (g_ota (run orc clock (gw_init cf) ops)) n) = Some k ->
+    exists pre ns ft fv bin post,
+      ops = pre ++ UpdateFw ns ft fv bin :: post /\
+      update_key (run orc clock (gw_init cf) pre) ft fv bin = Some k /\
+      zmem n ns = true /\ known (run orc clock (gw_init cf) pre) n = true.
+Proof. exact gated_history. Qed.
+
+(* gated (per line): whatever the line, if the dispatcher replies with a stream message, that
+   message is a config (1) or block (3) response addressed to a known node whose session is
+   not Idle *)
+Theorem C10_gated_reply :
+  forall orc clock g l g' rl, cfg_ok (g_cf g) -> sess_inv (g_ota g) ->
+    logic orc clock g l = Ok (g', Some rl) ->
+    exists x, rl = encode x /\
+      (m_type x = 4 -> known g (m_node x) = true /\ abs (g_ota g) (m_node x) <> Idle /\
+                       (m_sub x = 1 \/ m_sub x = 3)).
+Proof. exact gated_reply. Qed.
+
+(* and precisely: config request answered only in Requested / Offered, block request only in
+   Offered / Fetching (Requested never yields block responses) *)
+Theorem C10_stream_reply_gated :
+  forall orc clock g l m g' rl,
+    cfg_ok (g_cf g) -> sess_inv (g_ota g) -> decode l = Some m -> gvalidate orc g m = true -> m_type m = 4 ->
+    logic orc clock g l = Ok (g', Some rl) ->
+    known g (m_node m) = true /\
+    exists x k, rl = encode x /\ m_node x = m_node m /\ m_type x = 4 /\
+      ((m_sub m = 0 /\ m_sub x = 1 /\
+        (abs (g_ota g) (m_node m) = Requested k \/ abs (g_ota g) (m_node m) = Offered k)) \/
+       (m_sub m = 2 /\ m_sub x = 3 /\
+        (abs (g_ota g) (m_node m) = Offered k \/ abs (g_ota g) (m_node m) = Fetching k))).
+Proof. exact stream_reply_gated. Qed.
+
+Theorem C10_non_stream_line_not_answered_with_stream :
+  forall orc clock g l m g' rl,
+    cfg_ok (g_cf g) -> decode l = Some m -> gvalidate orc g m = true -> m_type m <> 4 ->
+    logic orc clock g l = Ok (g', Some rl) -> exists x, rl = encode x /\ m_type x <> 4.
+Proof. exact non_stream_reply. Qed.
+
+(* no re-flash loop: while a node is Fetching, NO line whatsoever is answered with a config
+   response for it ... *)
+Theorem C10_no_reflash_loop :
+  forall orc clock g l g' rl n k, cfg_ok (g_cf g) -> sess_inv (g_ota g) ->
+    abs (g_ota g) n = Fetching k -> logic orc clock g l = Ok (g', Some rl) ->
+    exists x, rl = encode x /\ ~ (m_node x = n /\ m_type x = 4 /\ m_sub x = 1).
+Proof. exact no_reflash_loop. Qed.
+
+(* ... and it stays Fetching, with the same key, over any history in which no update call names it *)
+Theorem C10_fetching_stable :
+  forall orc clock ops g n k, cfg_ok (g_cf g) -> SInv g ->
+    abs (g_ota g) n = Fetching k -> forallb (fun o => negb (names n o)) ops = true ->
+    abs (g_ota (run orc clock g ops)) n = Fetching k.
+Proof. exact fetching_stable. Qed.
+
+(* the config response is repeated until the node starts fetching: in Requested / Offered every
+   well-formed config request is answered with the payload for the SCHEDULED key *)
+Theorem C10_config_repeated_until_fetch :
+  forall orc clock g l m t v f,
+    cfg_ok (g_cf g) -> sess_inv (g_ota g) ->
+    decode l = Some m -> gvalidate orc g m = true -> m_type m = 4 -> m_sub m = 0 ->
+    known g (m_node m) = true -> hex_request_ok (m_payload m) 5 = true ->
+    (abs (g_ota g) (m_node m) = Requested (t, v) \/ abs (g_ota g) (m_node m) = Offered (t, v)) ->
+    fw_lookup t v (o_fw (g_ota g)) = Some f ->
+    exists g',
+      logic orc clock g l =
+        (do p <- fw_config_payload t v f; Ok (g', Some (encode (stream_reply m 1 p)))) /\
+      abs (g_ota g') (m_node m) = Offered (t, v) /\ sess_inv (g_ota g').
+Proof. exact config_repeated_until_fetch. Qed.
+
+(* in reachable states (images whose block count fits the 16-bit header word: op_ok) the image
+   IS stored and the packing cannot fail: the request is answered, explicitly *)
+Theorem C10_config_answered_reachable :
+  forall orc clock cf ops l m t v, cfg_ok cf -> Forall op_ok ops ->
+    let g := run orc clock (gw_init cf) ops in
+    decode l = Some m -> gvalidate orc g m = true -> m_type m = 4 -> m_sub m = 0 ->
+    known g (m_node m) = true -> hex_request_ok (m_payload m) 5 = true ->
+    (abs (g_ota g) (m_node m) = Requested (t, v) \/ abs (g_ota g) (m_node m) = Offered (t, v)) ->
+    exists f g',
+      fw_lookup t v (o_fw (g_ota g)) = Some f /\
+      logic orc clock g l =
+        Ok (g', Some (encode (stream_reply m 1
+               (hexlify (le16 t ++ le16 v ++ le16 (fw_blocks f) ++ le16 (fw_crc f)))))) /\
+      abs (g_ota g') (m_node m) = Offered (t, v).
+Proof. exact config_answered_reachable. Qed.
+
+(* a well-formed block request in Offered / Fetching: the node is Fetching afterwards; the reply
+   is the block of the image stored for the REQUESTED key; when none is stored there is no
+   reply but the session has moved all the same (observation recorded in the notes) *)
+Theorem C10_block_request_served :
+  forall orc clock g l m k rt rv rb,
+    cfg_ok (g_cf g) -> sess_inv (g_ota g) ->
+    decode l = Some m -> gvalidate orc g m = true -> m_type m = 4 -> m_sub m = 2 ->
+    known g (m_node m) = true -> fw_hex_to_int (m_payload m) 3 = Ok [rt; rv; rb] ->
+    (abs (g_ota g) (m_node m) = Offered k \/ abs (g_ota g) (m_node m) = Fetching k) ->
+    exists g',
+      logic orc clock g l =
+        match fw_lookup rt rv (o_fw (g_ota g)) with
+        | Some f => do p <- fw_response_payload rt rv rb f; Ok (g', Some (encode (stream_reply m 3 p)))
+        | None => Ok (g', None)
+        end /\
+      abs (g_ota g') (m_node m) = Fetching k /\ sess_inv (g_ota g').
+Proof. exact block_request_served. Qed.
+Theorem C10_block_payload_never_fails :
+  forall p rt rv rb f, fw_hex_to_int p 3 = Ok [rt; rv; rb] ->
+    fw_response_payload rt rv rb f =
+      Ok (hexlify (le16 rt ++ le16 rv ++ le16 rb) ++ hexlify (fw_block (fw_data f) rb)).
+Proof. exact block_payload_ok. Qed.
+
+(* restart: an update call with a key moves every known node it names to Requested, from ANY state *)
+Theorem C10_restart :
+  forall g ns ft fv bin n k, SInv g ->
+    update_key g ft fv bin = Some k -> zmem n ns = true -> known g n = true ->
+    exists g', update_fw g ns ft fv bin = Ok g' /\ abs (g_ota g') n = Requested k /\ reboot_flag g' n = true.
+Proof. exact restart. Qed.
+
+Theorem C10_update_without_effect :
+  forall g ns ft fv bin, SInv g ->
+    (update_key g ft fv bin = None \/ forall n, zmem n ns = true -> known g n = false) ->
+    exists g', update_fw g ns ft fv bin = Ok g' /\
+      forall n, abs (g_ota g') n = abs (g_ota g) n /\ reboot_flag g' n = reboot_flag g n.
+Proof. exact update_without_effect. Qed.
+
+(* stream message from a node the gateway does not know: no reply; nothing changes except that a
+   >= 2.0 gateway asks the node to present itself ("n;255;3;0;19;") *)
+Theorem C10_stream_from_unknown_node_ignored :
+  forall orc clock g l m,
+    cfg_ok (g_cf g) -> decode l = Some m -> gvalidate orc g m = true -> m_type m = 4 ->
+    known g (m_node m) = false ->
+    logic orc clock g l =
+      Ok (if cf_ge20 (g_cf g) then add_job_send g (encode (mkMsg (m_node m) 255 3 0 19 [])) else g, None).
+Proof. exact logic_stream_unknown. Qed.
+
+(* ------------------------------------------------------------------ 4. malformed_ignored *)
+
+(* a firmware config / firmware request from a known node whose payload does not unpack: no
+   exception, no reply, and the state is EXACTLY alert g m - the callback / dirty mark of
+   handle_stream; g_ota, sensors, jobs are untouched *)
+Theorem C10_malformed_ignored :
+  forall orc clock g l m,
+    cfg_ok (g_cf g) -> decode l = Some m -> gvalidate orc g m = true -> m_type m = 4 ->
+    known g (m_node m) = true ->
+    ((m_sub m = 0 /\ exists e, fw_hex_to_int (m_payload m) 5 = Raise e) \/
+     (m_sub m = 2 /\ exists e, fw_hex_to_int (m_payload m) 3 = Raise e)) ->
+    logic orc clock g l = Ok (alert g m, None).
+Proof. exact logic_malformed. Qed.
+
+Theorem C10_alert_changes_log_and_dirty_only :
+  forall g m, g_sensors (alert g m) = g_sensors g /\ g_ota (alert g m) = g_ota g /\ g_cf (alert g m) = g_cf g /\
+              g_jobs (alert g m) = g_jobs g /\ g_metric (alert g m) = g_metric g.
+Proof. exact alert_frame. Qed.
+
+(* which payloads are malformed: exactly those that are not 4*words hexadecimal digits
+   (odd length, wrong length, a non-hex or non-ASCII character, white space, sign, prefix) *)
+Theorem C10_malformed_iff :
+  forall s words, (exists e, fw_hex_to_int s words = Raise e) <-> hex_request_ok s words = false.
+Proof. exact fw_hex_to_int_raises_iff. Qed.
+Theorem C10_malformed_exceptions :
+  forall s words e, fw_hex_to_int s words = Raise e ->
+    e = ValueError \/ e = BinasciiError \/ e = StructError.
+Proof. exact fw_hex_to_int_errors. Qed.
+
+(* ------------------------------------------------------------------ 5. reboot_window *)
+
+(* the flag after ANY step, exactly: set by an update call that schedules the node, cleared by
+   an accepted node presentation, untouched by everything else - so it is true exactly from
+   the update call to the next node presentation *)
+Theorem C10_reboot_window :
+  forall orc clock g o n, cfg_ok (g_cf g) -> SInv g ->
+    reboot_flag (step orc clock g o) n =
+      match schedules g o n with
+      | Some _ => true
+      | None => if presents orc g o n then false else reboot_flag g n
+      end.
+Proof. exact reboot_flag_step. Qed.
+
+(* set message from a KNOWN child: the reply, before routing, is (node, 255, internal=3, 0,
+   I_REBOOT=13, "") iff the flag is set *)
+Theorem C10_set_known_child_reboot_reply :
+  forall g m nd,
+    tabfacts (tab g) (cf_ge20 (g_cf g)) -> wire_ok (m_payload m) = true ->
+    get_node g (m_node m) = Some nd -> zhas (m_child m) (n_children nd) = true ->
+    handle_set g m =
+      Ok (alert (put_node g (update_child_value nd (m_child m) (m_sub m) (m_payload m))) m,
+          if n_reboot nd then Some (mkMsg (m_node m) 255 3 0 13 []) else None).
+Proof. exact handle_set_known_child. Qed.
+
+(* the table facts hold for the five configurations (I_REBOOT = 13 etc. are finite facts about
+   the generated tables, checked per version) *)
+Theorem C10_table_facts : forall g, cfg_ok (g_cf g) -> tabfacts (tab g) (cf_ge20 (g_cf g)).
+Proof. exact tabfacts_of_cfg. Qed.
+
+(* set message for an unknown child: no reboot request *)
+Theorem C10_set_unknown_child_no_reboot :
+  forall g m g1 r,
+    (forall nd, get_node g (m_node m) = Some nd -> zhas (m_child m) (n_children nd) = false) ->
+    handle_set g m = Ok (g1, r) -> r = None.
+Proof. exact handle_set_unknown_child. Qed.
+
+(* through the dispatcher: sent at once to an awake node, queued for the next wake-up of a
+   smart-sleep node *)
+Theorem C10_set_line_reboot :
+  forall orc clock g l m nd,
+    cfg_ok (g_cf g) -> ids_ok g -> decode l = Some m -> gvalidate orc g m = true -> m_type m = 1 ->
+    get_node g (m_node m) = Some nd -> zhas (m_child m) (n_children nd) = true -> n_reboot nd = true ->
+    exists g', logic orc clock g l =
+                 Ok (g', if sleeping nd then None else Some (encode (mkMsg (m_node m) 255 3 0 13 []))) /\
+      frame g g' /\
+      (sleeping nd = true -> exists nd', get_node g' (m_node m) = Some nd' /\
+           n_queue nd' = n_queue nd ++ [encode (mkMsg (m_node m) 255 3 0 13 [])]).
+Proof. exact logic_set_reboot. Qed.
+
+Theorem C10_set_line_no_reboot_after_presentation :
+  forall orc clock g l m nd,
+    cfg_ok (g_cf g) -> decode l = Some m -> gvalidate orc g m = true -> m_type m = 1 ->
+    get_node g (m_node m) = Some nd -> zhas (m_child m) (n_children nd) = true -> n_reboot nd = false ->
+    exists g', logic orc clock g l = Ok (g', None).
+Proof. exact logic_set_no_reboot. Qed.
+
+(* node presentation: never raises, clears the flag of that node only, OTA state untouched *)
+Theorem C10_node_presentation_clears_reboot :
+  forall orc clock g l m,
+    cfg_ok (g_cf g) -> decode l = Some m -> gvalidate orc g m = true -> m_type m = 0 -> m_child m = 255 ->
+    exists g', logic orc clock g l = Ok (g', None) /\
+      g_ota g' = g_ota g /\ g_cf g' = g_cf g /\
+      (forall n, known g n = true -> known g' n = true) /\ known g' (m_node m) = true /\
+      (ids_ok g -> ids_ok g' /\ reboot_flag g' (m_node m) = false /\
+                   forall n, n <> m_node m -> reboot_flag g' n = reboot_flag g n).
+Proof. exact logic_node_presentation. Qed.
+
+(* ------------------------------------------------------------------ 6. session_terminates *)
+
+(* from Requested: one well-formed config request and one well-formed block request later the
+   node is Fetching, and from then on - over any history in which no update call names it -
+   it stays Fetching and no line is answered with a config response for it *)
+Theorem C10_session_terminates :
+  forall orc clock g l1 m1 g1 r1 l2 m2 g2 r2 n k ws rt rv rb,
+    cfg_ok (g_cf g) -> SInv g -> known g n = true -> abs (g_ota g) n = Requested k ->
+    decode l1 = Some m1 -> gvalidate orc g m1 = true -> m_type m1 = 4 -> m_sub m1 = 0 -> m_node m1 = n ->
+    fw_hex_to_int (m_payload m1) 5 = Ok ws ->
+    logic orc clock g l1 = Ok (g1, r1) ->
+    decode l2 = Some m2 -> gvalidate orc g m2 = true -> m_type m2 = 4 -> m_sub m2 = 2 -> m_node m2 = n ->
+    fw_hex_to_int (m_payload m2) 3 = Ok [rt; rv; rb] ->
+    logic orc clock g1 l2 = Ok (g2, r2) ->
+    abs (g_ota g1) n = Offered k /\ abs (g_ota g2) n = Fetching k /\
+    (forall ops, forallb (fun o => negb (names n o)) ops = true ->
+       let g3 := run orc clock g2 ops in
+       abs (g_ota g3) n = Fetching k /\
+       forall l g' rl, logic orc clock g3 l = Ok (g', Some rl) ->
+         exists x, rl = encode x /\ ~ (m_node x = n /\ m_type x = 4 /\ m_sub x = 1)).
+Proof. exact session_terminates. Qed.
+
+(* ------------------------------------------------------------------ non-vacuity *)
+
+Definition c10_img : list N := [1;2;3;4;5;6;7;8;9;10;11;12;13;14;15;16;17;18;19;20]%N.
+Definition c10_cf : config := mkConfig tab_22 true true false false.
+Definition c10_h0 : list op :=
+  [Recv (s2p "1;255;0;0;3;x"); Recv (s2p "1;1;0;0;6;t"); UpdateFw [1; 7] (VtInt 1) (VtStr (s2p "1")) (Some c10_img)].
+Definition c10_g0 : gw := run no_oracles 0 (gw_init c10_cf) c10_h0.
+Definition c10_cfgreq : pstr := s2p "1;255;4;0;0;01000100000000000000".
+Definition c10_blkreq : pstr := s2p "1;255;4;0;2;010001000000".
+Definition c10_new_events (g g' : gw) : list event := skipn (List.length (g_log g)) (g_log g').
+
+Example C10_cfg_exists : cfg_ok c10_cf.
+Proof. exists V22. split; reflexivity. Qed.
+
+(* present node 1 (and a child), update_fw([1, 7], 1, "1", image): node 1 Requested, flag set;
+   the unknown id 7 is skipped *)
+Example C10_ex_scheduled :
+  abs (g_ota c10_g0) 1 = Requested (1, 1) /\ reboot_flag c10_g0 1 = true /\ known c10_g0 1 = true /\
+  abs (g_ota c10_g0) 7 = Idle /\ known c10_g0 7 = false /\
+  update_key (run no_oracles 0 (gw_init c10_cf) (firstn 2 c10_h0)) (VtInt 1) (VtStr (s2p "1")) (Some c10_img) = Some (1, 1).
+Proof. vm_compute. repeat split; reflexivity. Qed.
+
+(* config request -> config response "1;255;4;0;1;010001000800d85f" (8 blocks, CRC 0x5fd8) *)
+Example C10_ex_config_response :
+  let g1 := step no_oracles 0 c10_g0 (Recv c10_cfgreq) in
+  abs (g_ota g1) 1 = Offered (1, 1) /\
+  c10_new_events c10_g0 g1 = [ESend (s2p "1;255;4;0;1;010001000800d85f" ++ [nl])].
+Proof. vm_compute. split; reflexivity. Qed.
+
+(* repeated config request -> repeated response; block request -> block 0; then a config
+   request is no longer answered *)
+Example C10_ex_session :
+  let g1 := run no_oracles 0 c10_g0 [Recv c10_cfgreq; Recv c10_cfgreq] in
+  let g2 := step no_oracles 0 g1 (Recv c10_blkreq) in
+  let g3 := step no_oracles 0 g2 (Recv c10_cfgreq) in
+  abs (g_ota g1) 1 = Offered (1, 1) /\
+  c10_new_events c10_g0 g1 = [ESend (s2p "1;255;4;0;1;010001000800d85f" ++ [nl]);
+                              ESend (s2p "1;255;4;0;1;010001000800d85f" ++ [nl])] /\
+  abs (g_ota g2) 1 = Fetching (1, 1) /\
+  c10_new_events g1 g2 = [ESend (s2p "1;255;4;0;3;0100010000000102030405060708090a0b0c0d0e0f10" ++ [nl])] /\
+  abs (g_ota g3) 1 = Fetching (1, 1) /\ c10_new_events g2 g3 = [].
+Proof. vm_compute. repeat split; reflexivity. Qed.
+
+(* malformed requests (non-hex, truncated, over-long, odd) from the scheduled node: no reply,
+   session unchanged; a stream request from the unknown node 9: only the presentation request *)
+Example C10_ex_malformed :
+  let g1 := run no_oracles 0 c10_g0
+              [Recv (s2p "1;255;4;0;0;zz"); Recv (s2p "1;255;4;0;0;0100010000000000"); Recv (s2p "1;255;4;0;2;0100010000000");
+               Recv (s2p "1;255;4;0;2;01000100000000")] in
+  let g2 := step no_oracles 0 g1 (Recv (s2p "9;255;4;0;0;01000100000000000000")) in
+  g_ota g1 = g_ota c10_g0 /\ c10_new_events c10_g0 g1 = [] /\
+  hex_request_ok (s2p "zz") 5 = false /\ hex_request_ok (s2p "01000100000000000000") 5 = true /\
+  g_ota g2 = g_ota c10_g0 /\ c10_new_events g1 g2 = [ESend (s2p "9;255;3;0;19;" ++ [nl])].
+Proof. vm_compute. repeat split; reflexivity. Qed.
+
+(* reboot window: a set message from the known child 1 is answered with "1;255;3;0;13;" until
+   node 1 presents itself again; a set for the unknown child 2 is not *)
+Example C10_ex_reboot_window :
+  let g1 := step no_oracles 0 c10_g0 (Recv (s2p "1;1;1;0;0;20.5")) in
+  let g2 := step no_oracles 0 g1 (Recv (s2p "1;2;1;0;0;20.5")) in
+  let g3 := step no_oracles 0 g2 (Recv (s2p "1;255;0;0;3;x")) in
+  let g4 := step no_oracles 0 g3 (Recv (s2p "1;1;1;0;0;21")) in
+  c10_new_events c10_g0 g1 = [ESend (s2p "1;255;3;0;13;" ++ [nl])] /\ reboot_flag g1 1 = true /\
+  c10_new_events g1 g2 = [ESend (s2p "1;255;3;0;19;" ++ [nl])] /\
+  reboot_flag g3 1 = false /\ abs (g_ota g3) 1 = Requested (1, 1) /\
+  c10_new_events g3 g4 = [].
+Proof. vm_compute. repeat split; reflexivity. Qed.
+
+(* restart mid-fetch: a second update call (no image: the stored one is used) takes a Fetching
+   node back to Requested; an update call for a key without image, with an out-of-range type or
+   with a failed load changes no session *)
+Example C10_ex_restart :
+  let g2 := run no_oracles 0 c10_g0 [Recv c10_cfgreq; Recv c10_blkreq] in
+  let g3 := step no_oracles 0 g2 (UpdateFw [1] (VtInt 1) (VtInt 1) None) in
+  let g4 := run no_oracles 0 g2 [UpdateFw [1] (VtInt 2) (VtInt 1) None; UpdateFw [1] (VtInt 70000) (VtInt 1) (Some c10_img);
+                                 UpdateFw [1] (VtStr (s2p "x")) (VtInt 1) (Some c10_img); UpdateFw [1] (VtInt 3) (VtInt 1) (Some [])] in
+  abs (g_ota g2) 1 = Fetching (1, 1) /\ abs (g_ota g3) 1 = Requested (1, 1) /\
+  g_ota g4 = g_ota g2 /\ g_log g4 = g_log g2.
+Proof. vm_compute. repeat split; reflexivity. Qed.
+
+(* the reading note of DESIGN C10: a well-formed block request for a key WITHOUT stored image
+   moves Offered -> Fetching silently *)
+Example C10_ex_silent_advance :
+  let g1 := step no_oracles 0 c10_g0 (Recv c10_cfgreq) in
+  let g2 := step no_oracles 0 g1 (Recv (s2p "1;255;4;0;2;050005000000")) in
+  abs (g_ota g1) 1 = Offered (1, 1) /\ abs (g_ota g2) 1 = Fetching (1, 1) /\ c10_new_events g1 g2 = [].
+Proof. vm_compute. repeat split; reflexivity. Qed.
+
+(* the threaded flavour: the same through the job queue *)
+Example C10_ex_threaded :
+  let cf := mkConfig tab_15 false false true true in
+  let g := run no_oracles 0 (gw_init cf)
+             [Recv (s2p "1;255;0;0;3;x"); Pump; UpdateFw [1] (VtInt 1) (VtInt 1) (Some c10_img);
+              Recv c10_cfgreq; Pump] in
+  abs (g_ota g) 1 = Offered (1, 1) /\
+  exists t, last (g_log g) (ERaise OtherError) = ESend (s2p "1;255;4;0;1;010001000800d85f" ++ [nl]) /\
+            nth 1 (rev (g_log g)) (ERaise OtherError) = ECallback (mkMsg 1 255 4 0 0 (s2p "01000100000000000000")) t.
+Proof. vm_compute. split; [reflexivity|]. eexists. split; reflexivity. Qed.
+
+Print Assumptions C10_abs_well_defined.
+Print Assumptions C10_reachable_invariant.
+Print Assumptions C10_step_invariant.
+Print Assumptions C10_session_refines_request.
+Print Assumptions C10_respond_fw_config_refines.
+Print Assumptions C10_respond_fw_refines.
+Print Assumptions C10_stream_other_subtype_noop.
+Print Assumptions C10_other_lines_frame.
+Print Assumptions C10_leaf_handlers_frame.
+Print Assumptions C10_set_child_value_frame.
+Print Assumptions C10_update_call.
+Print Assumptions C10_update_key_sound.
+Print Assumptions C10_session_refines_step.
+Print Assumptions C10_gated_history.
+Print Assumptions C10_gated_reply.
+Print Assumptions C10_stream_reply_gated.
+Print Assumptions C10_non_stream_line_not_answered_with_stream.
+Print Assumptions C10_no_reflash_loop.
+Print Assumptions C10_fetching_stable.
+Print Assumptions C10_config_repeated_until_fetch.
+Print Assumptions C10_config_answered_reachable.
+Print Assumptions C10_block_request_served.
+Print Assumptions C10_block_payload_never_fails.
+Print Assumptions C10_restart.
+Print Assumptions C10_update_without_effect.
+Print Assumptions C10_stream_from_unknown_node_ignored.
+Print Assumptions C10_malformed_ignored.
+Print Assumptions C10_alert_changes_log_and_dirty_only.
+Print Assumptions C10_malformed_iff.
+Print Assumptions C10_malformed_exceptions.
+Print Assumptions C10_reboot_window.
+Print Assumptions C10_set_known_child_reboot_reply.
+Print Assumptions C10_table_facts.
+Print Assumptions C10_set_unknown_child_no_reboot.
+Print Assumptions C10_set_line_reboot.
+Print Assumptions C10_set_line_no_reboot_after_presentation.
+Print Assumptions C10_node_presentation_clears_reboot.
+Print Assumptions C10_session_terminates.
